@@ -164,13 +164,14 @@ Definition breadthdist (n : nat) (C : mat Z) : option (mat bool * mat (option na
     Some ((fun i j => isfin (D i j)), D)
   end.
 
-(* ---------- reachdist (lines 690-731) ---------- *)
+(* ---------- reachdist (lines 690-740; ensure_binary=True; after repo commits 4fc05b1, 2cf9619) ---------- *)
 Fixpoint reachdist2 (fuel n : nat) (C CP : mat Z) (R : mat bool) (D : mat Z) (powr : nat) (row col : list nat)
   : option (mat bool * mat Z * nat) :=
   match fuel with
   | O => None
   | S f =>
-    let CP' := tab 0 n n (matmul n CP C) in
+    let P := tab 0 n n (matmul n CP C) in                                  (* CIJpwr = np.dot(CIJpwr, CIJ) *)
+    let CP' := tab 0 n n (fun i j => b2z (znz (P i j))) in                 (* if ensure_binary: CIJpwr = (CIJpwr != 0).astype(float)  (repo commit 2cf9619) *)
     let R' := tab false n n (fun i j => R i j || znz (CP' i j)) in
     let D' := tab 0 n n (fun i j => D i j + b2z (R' i j)) in
     if (Nat.leb powr n && existsb (fun i => existsb (fun j => negb (R' i j)) col) row)%bool
